@@ -37,7 +37,8 @@ type Case struct {
 	CS, Strict   bool
 	Items        []Item
 	Method, Path string
-	Repeat       int `json:",omitempty"` // build and run this many times (map-order dependent behaviour)
+	Repeat       int  `json:",omitempty"` // build and run this many times (map-order dependent behaviour)
+	Started      bool `json:",omitempty"` // the app served a request before anything was registered or mounted (registration after the first start)
 }
 
 type obs struct{ trace []string }
@@ -166,6 +167,9 @@ func runOne(c Case, mode string) (out outcome, panicked string) {
 		}
 	}()
 	app := fiber.New(cfg)
+	if c.Started {
+		vk.Do(app, "GET", "/warm-up") // runs the start-up processing with nothing registered yet
+	}
 	switch mode {
 	case "flat":
 		buildFlat(app, "", false, c.Items, o, false)
@@ -374,7 +378,7 @@ func fillPath(t *rapid.T, p string) string {
 }
 
 func genCase(t *rapid.T) Case {
-	c := Case{CS: rapid.Bool().Draw(t, "cs"), Strict: rapid.Bool().Draw(t, "strict")}
+	c := Case{CS: rapid.Bool().Draw(t, "cs"), Strict: rapid.Bool().Draw(t, "strict"), Started: rapid.IntRange(0, 4).Draw(t, "started") == 0}
 	g := &gen{t: t, used: map[string]bool{}, nested: map[string]bool{}}
 	c.Items = g.items(rapid.IntRange(1, 3).Draw(t, "depth"), "")
 	c.Method = rapid.SampledFrom([]string{"GET", "POST"}).Draw(t, "m")
